@@ -116,6 +116,22 @@ FIRST.update({
  "C19e": ("missed", "reference and harness take the fee wallet from the fee state (they had followed the group's cached copy, like the change); admin driver rotates the fee wallet and collects before / after propagation"),
  "C19f": ("missed", "C19 clause emissions_credited_in_full_for_size_time_rate (lower bound, position valued on its own side)"),
 })
+FIRST.update({  # round 8
+ "C01e": ("missed", "C01 is judged on the liq driver's bankruptcies (insurance below / at / above the bad debt) and on the edge driver's exact-wipe episodes"),
+ "C01f": ("missed", "edge driver: the steepest curves the program accepts (hundred-percent rate at the u32 maximum) with every fee parameter present, at and near full utilization"),
+ "C02e": ("missed", "Life.tla (close_account / transfer on top of the ledger actions: [price collapse, liquidate all collateral, close] is explored by TLC) + edge driver episode 'debt without collateral, then close / move / settle'"),
+ "C02f": ("missed", "edge driver: wind-down (token-less repayments allowed and complete) of a bank whose deposit share value is off 1, lenders purged one by one"),
+ "C03e": ("missed", "harness: set_transfer_fee (real Token-2022 instruction) / set_epoch, fee in force read from the mint; edge driver: deposits / repays / withdrawals / borrows in the epochs before, at and after the activation of a re-scheduled fee"),
+ "C07e": ("missed", "edge driver: a solvent account whose collateral bank's collateral-value cap is lowered far below its deposits (with a large co-depositor); bankruptcy attempts by admin and risk admin"),
+ "C07f": ("missed", "edge driver: sole borrower drew every deposited token (or all but 1 / 2 units), no fees, no time, insurance empty / a unit / half / equal / more: uncovered loss =, <, > deposits"),
+ "C08e": ("missed", "C08 general clauses on every recorded execution (third_party_control_ends_with_the_transaction, balances_change_only_with_the_entitled_signature, third party only strictly inside a bracket); Recv2 alphabet, recv driver ([start A, start B, end A], strangers probing both accounts afterwards) and admin driver added to C08"),
+ "C08f": ("missed", "same as C08e (the recv driver's empty brackets followed by strangers' withdrawals)"),
+ "C09g": ("missed", "edge driver: Pyth feeds with exponents from -12 up to +3 and confidence ratios up to the maximum, borrow / withdraw / liquidation boundaries"),
+ "C09h": ("missed", "edge driver: reduce-only collateral bank whose feed stopped while the debt bank's feed goes on; liquidation, bankruptcy, receivership start, borrow"),
+ "C13f": ("missed", "C13 clause account_that_passes_the_initial_check_cannot_be_liquidated; risk driver attempts a liquidation after every boundary borrow; RiskCfg offers an e-mode entry far below the collateral bank's own weights"),
+ "C14f": ("missed", "C14 clauses reduce_only_deposits_still_count_when_liquidation_is_assessed / _when_bad_debt_is_assessed"),
+ "C17e": ("missed", "edge driver: utilization boundary by bisection (borrow and withdraw) on banks whose deposits and debt both carry a fraction after accrual; amounts around the boundary recorded"),
+})
 for d in sorted(os.listdir(os.path.join(ROOT, "seeded"))):
     mp = os.path.join(ROOT, "seeded", d, "meta.json")
     rp = os.path.join(ROOT, "seeded", d, "result.txt")
